@@ -12,6 +12,9 @@ s = %r
 try:
     v = formulas.Parser().ast('=' + s)[1].compile()()
 except FormulaError as e:
+    import re
+    if re.fullmatch(r'([0-9]+(\\.[0-9]+)?|\\.[0-9]+)([Ee][+-][0-9]+)?', s):
+        print('REPRODUCED: numeric literal %%r (a form Excel writes) is rejected' %% s); sys.exit(1)
     print('rejected cleanly'); sys.exit(0)
 except BaseException as e:
     print('REPRODUCED: numeric literal %%r escapes as %%s: %%s' %% (s, type(e).__name__, e)); sys.exit(1)
@@ -37,6 +40,9 @@ def run(tier, seed):
         dict(name='numeric_literals_accepted', module='c18_sym', func='number_literals', timeout=600,
              bounds='every string of the numeric-literal language of Number._re, length <= 12', engine='symtrace + rx2smt (z3 strings)',
              replay=lambda cex: REPLAY_NUM % cex.get('s', '')),
+        dict(name='numeric_forms_tokenised', module='c18_sym', func='number_forms_accepted', timeout=600,
+             bounds='digits[.digits][E(+|-)digits] and .digits[E..], length <= 14', engine='rx2smt (z3 regex inclusion)',
+             replay=lambda cex: REPLAY_NUM % cex.get('s', '')),
         dict(name='token_patterns_make_progress', module='c18_sym', func='filters_progress', timeout=600,
              bounds='all 10 token patterns of Parser.filters, unbounded length', engine='rx2smt (z3 regex)'),
     ]
@@ -58,7 +64,7 @@ def run(tier, seed):
             for a in range(22):
                 for b in range(22):
                     add((a, b), ['soup2_ok'])
-        for f in range(6):
+        for f in range(7):
             s = src.replace('__PREFIX__', '()').replace('__VALID__', 'None').replace('pre: 0 <= f < len(VALID)', 'pre: f == %d' % f)
             if quick:
                 s = s.replace('pre: not (k2 or k3)', 'pre: not (k2 or k3)\n    pre: sel(t0, t1, t2, t3, t4) in (0, 1, 4, 7, 13, 14, 15, 17, 18, 19, 20) or sel(k0, k1) == 0')
